@@ -86,6 +86,10 @@ func histPool() []poolCall {
 }
 
 func tripleScenario(seed uint64, prop, target string, pool []poolCall, idx [3]int, item int) *Scenario {
+	return tupleScenario(seed, prop, target, pool, idx[:], item)
+}
+
+func tupleScenario(seed uint64, prop, target string, pool []poolCall, idx []int, item int) *Scenario {
 	sc := &Scenario{Format: 1, Property: prop, Engine: "hist3", Target: target, Seed: seed}
 	sc.Cfg = Cfg{Pool: []int{simrt.PoolLIFO, simrt.PoolAdversarial, simrt.PoolFIFO}[item%3], MapOrder: item % simrt.NumMapPolicies, Warm: item%2 == 0, SpareCap: item%4 < 2, Scribble: item%8 >= 4, ScribbleResults: item%5 == 1}
 	bufIdx := map[string]int{}
@@ -157,6 +161,30 @@ func runHistTriples(p Params, prop string, mine func() bool, exec func(sc *Scena
 			}
 		}
 	}
+	if p.Tier == "thorough" {
+		// four-call histories over every second descriptor
+		var sub []int
+		for i := range pool {
+			if i%2 == 0 {
+				sub = append(sub, i)
+			}
+		}
+		for _, target := range []string{"v5", "legacy"} {
+			for _, i := range sub {
+				for _, j := range sub {
+					for _, k := range sub {
+						for _, l := range sub {
+							if !mine() {
+								continue
+							}
+							exec(tupleScenario(seed, prop, target, pool, []int{i, j, k, l}, itemNo()), "history-quadruple")
+							n++
+						}
+					}
+				}
+			}
+		}
+	}
 	return n
 }
 
@@ -193,6 +221,10 @@ func RunHistEnumWorker(p Params) *Summary {
 	if complete {
 		n := len(histPool())
 		ws.sum.Exhaustive = []string{fmt.Sprintf("every ordered triple of %d call descriptors (%d three-call histories per package) x {v5, legacy}, pool policy LIFO/adversarial/FIFO, all map orders", n, n*n*n)}
+		if p.Tier == "thorough" {
+			h := (n + 1) / 2
+			ws.sum.Exhaustive = append(ws.sum.Exhaustive, fmt.Sprintf("every ordered quadruple of every second descriptor (%d four-call histories per package) x {v5, legacy}", h*h*h*h))
+		}
 	} else {
 		ws.sum.Probes["enumeration_cut_short_by_deadline"]++
 	}
